@@ -43,6 +43,9 @@ type BackendHit struct {
 	Body    []byte
 	TE      []string
 	CLen    int64
+	// BodyErr: reading the body failed at the upstream (the sender broke off: short of the announced
+	// length, malformed chunking) — the upstream can see that this request did not arrive whole
+	BodyErr string
 }
 
 // Backend is a recording upstream.
@@ -73,9 +76,12 @@ func newBackend(name string, tlsH2 bool) *Backend {
 		if bb != nil {
 			bb(r)
 		}
-		body, _ := io.ReadAll(r.Body)
+		body, berr := io.ReadAll(r.Body)
 		hit := BackendHit{Proto: r.Proto, Backend: name, Method: r.Method, URI: r.RequestURI, Path: r.URL.Path, Query: r.URL.RawQuery, Host: r.Host,
 			Header: r.Header.Clone(), Body: body, TE: r.TransferEncoding, CLen: r.ContentLength}
+		if berr != nil {
+			hit.BodyErr = berr.Error()
+		}
 		b.mu.Lock()
 		b.Hits = append(b.Hits, hit)
 		resp := b.Respond
